@@ -59,3 +59,29 @@ Qed.
 Example visual_order_ex :
   visual_order [(0, 1, 0%Z); (1, 2, 1%Z); (3, 3, 2%Z); (6, 4, 1%Z); (10, 5, 0%Z)] = [0; 3; 2; 1; 4]%nat.
 Proof. reflexivity. Qed.
+
+(** frame: a line without any span of level >= 1 (pure left-to-right text) is left exactly as it was *)
+Lemma max_level_ltr spans : (forall s, In s spans -> (spL s <= 0)%Z) -> max_level spans = 0%Z.
+Proof.
+  unfold max_level. induction spans as [|s r IH]; intros H; cbn [fold_left]; [reflexivity|].
+  rewrite Z.max_l by (apply H; now left). apply IH. intros t Ht. apply H. now right.
+Qed.
+
+Lemma runs1_ltr spans : (forall s, In s spans -> (spL s <= 0)%Z) -> forall pos, runs1 spans pos None = [].
+Proof.
+  induction spans as [|s r IH]; intros H pos; cbn [runs1]; [reflexivity|].
+  assert (Hs : (spL s <= 0)%Z) by (apply H; now left).
+  destruct (1 <=? spL s)%Z eqn:E; [apply Z.leb_le in E; lia|].
+  apply IH. intros t Ht. apply H. now right.
+Qed.
+
+Theorem reorder_spans_ltr_identity spans :
+  (forall s, In s spans -> (spL s <= 0)%Z) ->
+  visual_order spans = seq 0 (length spans) /\ reorder_spans spans = spans.
+Proof.
+  intros H. split.
+  - unfold visual_order. rewrite (max_level_ltr spans H). reflexivity.
+  - unfold reorder_spans. rewrite (runs1_ltr spans H 0). cbn [flat_map].
+    rewrite <- (map_snd_combine_seq spans 0) at 3.
+    apply map_ext. intros [i s]. reflexivity.
+Qed.
